@@ -681,12 +681,16 @@ def run(ck):
             ck.sample(case_line(c)[:300])
     # ---- the corpus witnesses of the counterexample theorems must still fail on the real code
     expect = {'cxtypes': 'nlvo:types-mislabelled', 'cxsum': 'readback:sum-too-few-args', 'cxsumb': 'readback:sum-too-few-args',
-              'cxblock': 'nlvo:block-order', 'cxnull': 'computeobj:null-coefficients', 'cxcdual': 'c-api:dual-warmstart-into-primal'}
+              'cxblock': 'nlvo:nlvoi-count', 'cxnull': 'computeobj:null-coefficients', 'cxcdual': 'c-api:dual-warmstart-into-primal'}
     witness = {}
     for cid, sig in expect.items():
         if cid in G:
             witness[cid] = any(s == sig for s, _ in oracle(byid[cid], G[cid]))
     ck.cov['counterexample_witnesses_reproduced_on_real_code'] = witness
+    for cid, okw in witness.items():
+        if not okw:
+            ck.add_violation('witness:%s' % cid, 'the corpus witness %s of a proved counterexample theorem no longer shows %s on the real code: the code changed, the model and its _partial theorems must follow' % (cid, expect[cid]),
+                             {'case': case_line(byid[cid]), 'expected_signature': expect[cid], 'observed': G[cid][:30]}, found_input=False)
     # ---- assert-enabled build of nl-solver.cc on the corpus (debug builds abort on a wrong assertion)
     try:
         exed = build_harness(ck, asserts=True)
